@@ -451,8 +451,48 @@ func (e *env) runPipeX(enc string, in []byte, mode string, consumer int, toModel
 	k := enc + "|" + d.InputHex
 	if toModel && !e.seenPipe[k] {
 		e.seenPipe[k] = true
-		e.cw.Add(fmt.Sprintf("PipeCase %s %s %s", coqEnc(enc), vh.CoqHex(in), vh.CoqHex(got)), d)
+		if len(in) >= 1024 {
+			// long streams as segments (a 10 KB hex literal costs coqc seconds to read)
+			e.cw.Add(fmt.Sprintf("SegPipeCase %s %s %s", coqEnc(enc), coqSegs(in), coqSegs(got)), d)
+		} else {
+			e.cw.Add(fmt.Sprintf("PipeCase %s %s %s", coqEnc(enc), vh.CoqHex(in), vh.CoqHex(got)), d)
+		}
 	}
+}
+
+// fillerByte is byte i of the filler pattern (Model/Encoding.v: fill).
+func fillerByte(i int) byte { return byte('a' + i%23) }
+
+// coqSegs writes b as Model.Encoding segments: maximal stretches (>= 16 bytes) that follow the
+// filler pattern become SFill phase len, everything else literal bytes.
+func coqSegs(b []byte) string {
+	var segs []string
+	var lit []byte
+	flush := func() {
+		if len(lit) > 0 {
+			segs = append(segs, "SLit "+vh.CoqHex(lit))
+			lit = nil
+		}
+	}
+	for i := 0; i < len(b); {
+		n := 0
+		if b[i] >= 'a' && b[i] < 'a'+23 {
+			ph := int(b[i] - 'a')
+			for i+n < len(b) && b[i+n] == fillerByte(ph+n) {
+				n++
+			}
+			if n >= 16 {
+				flush()
+				segs = append(segs, fmt.Sprintf("SFill %s %s", vh.CoqN(ph), vh.CoqNat(n)))
+				i += n
+				continue
+			}
+		}
+		lit = append(lit, b[i])
+		i++
+	}
+	flush()
+	return vh.CoqList(segs)
 }
 
 func hasHigh(b []byte) bool {
@@ -623,7 +663,7 @@ func (e *env) longCases(r *vh.Rng) {
 	filler := func() []byte {
 		b := make([]byte, total)
 		for i := range b {
-			b[i] = byte('a' + i%23)
+			b[i] = fillerByte(i)
 		}
 		return b
 	}
@@ -642,7 +682,7 @@ func (e *env) longCases(r *vh.Rng) {
 					mode = "chunks:4096,4095,3"
 				}
 				// the model evaluates one case per offset (rotating over what is inserted and the encoding)
-				e.runPipeX(enc, in, mode, consumer, n%len(inserts) == ii && p <= 8196)
+				e.runPipeX(enc, in, mode, consumer, (n+ii)%3 == 0)
 			}
 			n++
 		}
